@@ -221,14 +221,22 @@ class Speller(object):
         self.gid += 1
         return 'x%d' % self.gid
 
+    def score_value(self):
+        # boundary values as well: zero (falsy), negative, integer spelling, exponent
+        r = self.rng.random()
+        if r < 0.2:
+            return self.rng.choice(['0', '0.0', '-0.0', '0.000'])
+        if r < 0.3:
+            return self.rng.choice(['1', '-1.5', '1e-3', '100'])
+        return '%.3f' % self.rng.random()
+
     def annots(self):
         out = []
         if self.rng.random() < self.p_annot:
             for _ in range(self.rng.randint(1, 2)):
                 self.stats['annot'] += 1
                 if self.rng.random() < 0.5:
-                    out.append(('score', self.rng.choice(['consistency', 'coverage', 's3']),
-                                '%.3f' % self.rng.random()))
+                    out.append(('score', self.rng.choice(['consistency', 'coverage', 's3']), self.score_value()))
                 else:
                     out.append(('prop', self.rng.choice(['note', 'src', 'k%d' % self.rng.randint(0, 3)]),
                                 'v%d' % self.rng.randint(0, 99)))
@@ -319,7 +327,7 @@ class Speller(object):
             self.fresh += 1
             self.stats['annot'] += 1
             if self.rng.random() < 0.5:
-                out.append(('score', 'pgs%d' % self.fresh, '%.3f' % self.rng.random()))
+                out.append(('score', 'pgs%d' % self.fresh, self.score_value()))
             else:
                 out.append(('prop', 'pgk%d' % self.fresh, 'v%d' % self.rng.randint(0, 99)))
         return out
@@ -477,6 +485,9 @@ def gen_plan(rng, nleaves=None, nfam=None, fancy_names=False, use_internal=None,
         shape = rng.choice(['balanced', 'balanced', None])
     pl.tree = gen_tree(rng, nleaves, max_arity=rng.choice([2, 3, 4, 5]), fancy_names=fancy_names, shape=shape, unary=unary)
     pl.use_internal = (rng.random() < 0.6) if use_internal is None else use_internal
+    if pl.use_internal and rng.random() < 0.06:
+        # a Newick tree without a label on its root, read with use_internal_name=True: one node named ''
+        pl.tree.name = ''
     pl.named = pl.tree if pl.use_internal else synth_names(pl.tree)
     if nfam is None:
         nfam = rng.randint(0, 4)
